@@ -21,7 +21,8 @@ Events (all carry the same fields; unused ones are ''/0):
   resolve type, value, mtype, mvalue        future.result() returned
   fail    code, mtype, mvalue               future.result() raised an API error
   return  type, value        (plain methods) the client method returned a message
-  crash   detail             anything else that was raised
+  crash   detail             anything else that was raised (also: the emitted client / transport could not be
+                             imported or constructed - then it is the only event of the run)
 chan = 1 iff the call is accounted for by the log of the ONE recorded channel handed to the transport (grpc),
 resp. arrived at the loopback HTTP server the transport was pointed at (rest); 2 otherwise.
 """
@@ -337,51 +338,75 @@ def main():
     by = {}
     for r in pl['runs']:
         by.setdefault((r['mode'], r['transport']), []).append(r)
-    try:
+
+    def unusable(mode, transport, e):
+        """the emitted client / transport could not even be imported or constructed: every run of the group
+        records that as its only event (a verdict about the emitted code, not about the harness)."""
+        msg = f'client construction: {type(e).__name__}: {e}'[:300]
+        done = {o['id'] for o in out}
+        for r in by[(mode, transport)]:
+            if r['id'] not in done:
+                out.append(dict(id=r['id'], mode=mode, transport=transport, events=[blank(ev='crash', detail=msg)], error=msg))
+
+    def sync_group(transport, make):
+        if ('sync', transport) not in by:
+            return
+        try:
+            client, close = make()
+            for r in by[('sync', transport)]:
+                script.reset(r)
+                err = run_sync(script, client)
+                out.append(dict(id=r['id'], mode='sync', transport=transport, events=script.events, error=err))
+            close()
+        except Exception as e:
+            unusable('sync', transport, e)
+
+    def make_sync_grpc():
+        _, C = rt.import_client(mod, svc, False)
+        T = rt.transport_class(mod, snake, svc, 'grpc')
+        ch = lg.sync_channel(gsrv.target, script.chlog)
+        return C(transport=T(channel=ch, host=gsrv.target)), ch.close
+
+    def make_sync_rest():
         from google.auth.credentials import AnonymousCredentials
-        # ---- sync clients
-        if ('sync', 'grpc') in by:
-            _, C = rt.import_client(mod, svc, False)
-            T = rt.transport_class(mod, snake, svc, 'grpc')
-            ch = lg.sync_channel(gsrv.target, script.chlog)
-            client = C(transport=T(channel=ch, host=gsrv.target))
-            for r in by[('sync', 'grpc')]:
+        _, C = rt.import_client(mod, svc, False)
+        T = rt.transport_class(mod, snake, svc, 'rest')
+        return C(transport=T(host=hsrv.hostport, url_scheme='http', credentials=AnonymousCredentials())), (lambda: None)
+
+    async def async_group(transport, make):
+        if ('asyncio', transport) not in by:
+            return
+        try:
+            client, close = make()
+            for r in by[('asyncio', transport)]:
                 script.reset(r)
-                err = run_sync(script, client)
-                out.append(dict(id=r['id'], mode='sync', transport='grpc', events=script.events, error=err))
-            ch.close()
-        if ('sync', 'rest') in by:
-            _, C = rt.import_client(mod, svc, False)
-            T = rt.transport_class(mod, snake, svc, 'rest')
-            client = C(transport=T(host=hsrv.hostport, url_scheme='http', credentials=AnonymousCredentials()))
-            for r in by[('sync', 'rest')]:
-                script.reset(r)
-                err = run_sync(script, client)
-                out.append(dict(id=r['id'], mode='sync', transport='rest', events=script.events, error=err))
-        # ---- asyncio clients
+                err = await run_async(script, client)
+                out.append(dict(id=r['id'], mode='asyncio', transport=transport, events=script.events, error=err))
+            await close()
+        except Exception as e:
+            unusable('asyncio', transport, e)
+
+    def make_async_grpc():
+        _, C = rt.import_client(mod, svc, True)
+        T = rt.transport_class(mod, snake, svc, 'grpc_asyncio')
+        ch = lg.aio_channel(gsrv.target, script.chlog)
+        return C(transport=T(channel=ch, host=gsrv.target)), ch.close
+
+    def make_async_rest():
+        import importlib
+        from google.auth.aio.credentials import AnonymousCredentials as AAnon
+        _, C = rt.import_client(mod, svc, True)
+        T = getattr(importlib.import_module(f'{mod}.services.{snake}.transports'), f'Async{svc}RestTransport')
+        tr = T(host=hsrv.hostport, url_scheme='http', credentials=AAnon())
+        return C(transport=tr), tr.close
+
+    try:
+        sync_group('grpc', make_sync_grpc)
+        sync_group('rest', make_sync_rest)
         if ('asyncio', 'grpc') in by or ('asyncio', 'rest') in by:
             async def amain():
-                _, C = rt.import_client(mod, svc, True)
-                if ('asyncio', 'grpc') in by:
-                    T = rt.transport_class(mod, snake, svc, 'grpc_asyncio')
-                    ch = lg.aio_channel(gsrv.target, script.chlog)
-                    client = C(transport=T(channel=ch, host=gsrv.target))
-                    for r in by[('asyncio', 'grpc')]:
-                        script.reset(r)
-                        err = await run_async(script, client)
-                        out.append(dict(id=r['id'], mode='asyncio', transport='grpc', events=script.events, error=err))
-                    await ch.close()
-                if ('asyncio', 'rest') in by:
-                    from google.auth.aio.credentials import AnonymousCredentials as AAnon
-                    import importlib
-                    T = getattr(importlib.import_module(f'{mod}.services.{snake}.transports'), f'Async{svc}RestTransport')
-                    tr = T(host=hsrv.hostport, url_scheme='http', credentials=AAnon())
-                    client = C(transport=tr)
-                    for r in by[('asyncio', 'rest')]:
-                        script.reset(r)
-                        err = await run_async(script, client)
-                        out.append(dict(id=r['id'], mode='asyncio', transport='rest', events=script.events, error=err))
-                    await tr.close()
+                await async_group('grpc', make_async_grpc)
+                await async_group('rest', make_async_rest)
             asyncio.run(amain())
     finally:
         gsrv.stop()
